@@ -63,6 +63,10 @@ def register(E, v, rng_guard):
         ("l2_reg", dict(init="svd", l2_reg=0.1, **it), "q"),
         ("fixed_modes", dict(init="random", fixed_modes=[1], **it), "q"),
         ("linesearch", dict(init="svd", linesearch=True, n_iter_max=9, tol=1e-300), "q"),
+        # option pairs whose code paths only meet late in a run (the imputation of masked entries on sweeps that skip the error computation)
+        ("mask,linesearch", dict(init="random", _mask=True, linesearch=True, n_iter_max=9, tol=1e-300), "q"),
+        ("mask,tol=0", dict(init="svd", _mask=True, n_iter_max=4, tol=0), "q"),
+        ("mask,normalize_factors,linesearch", dict(init="svd", _mask=True, normalize_factors=True, linesearch=True, n_iter_max=9, tol=1e-300), "t"),
         ("cvg=rec_error,return_errors", dict(init="svd", cvg_criterion="rec_error", return_errors=True, **it), "q"),
         ("svd=randomized_svd", dict(init="svd", svd="randomized_svd", **it), "q"),
         ("svd=symeig_svd", dict(init="svd", svd="symeig_svd", **it), "t"),
